@@ -720,11 +720,13 @@ def register(w, ctx, mods, log=None, faults=None):
             ctx.delete_at(blk, offs[k], offs[k + n] - offs[k], retarget_to_proxy=bool(m.get("proxy")))
 
 
-def rewrite(spec, mods, **kw):
+def rewrite(spec, mods, prepare=None, **kw):
     """build + register + apply on the real library -> (world, exception | None)"""
     from gtirb_rewriting import RewritingContext
 
     w = build(spec)
+    if prepare is not None:
+        prepare(w)
     ctx = RewritingContext(w.m, w.funcs)
     w.ctx = ctx
     try:
